@@ -85,6 +85,17 @@ struct Dumper {
     }
     return false;
   }
+  // a function-local static (mangled _ZZ...) that the module only ever loads from keeps its initial value: no other
+  // translation unit can name it, so the loads see the initializer
+  static bool onlyRead(const Value *V, unsigned depth = 0) {
+    if (depth > 6) return false;
+    for (const User *U : V->users()) {
+      if (isa<LoadInst>(U)) continue;
+      if (isa<GetElementPtrInst>(U) || isa<BitCastInst>(U) || isa<GEPOperator>(U) || isa<BitCastOperator>(U)) { if (!onlyRead(U, depth + 1)) return false; continue; }
+      return false;
+    }
+    return true;
+  }
   std::string cst(const Constant *C) {
     std::string s; raw_string_ostream os(s);
     if (auto *CI = dyn_cast<ConstantInt>(C)) { os << "{\"k\":\"int\",\"bits\":" << CI->getBitWidth() << ",\"v\":\""; CI->getValue().print(os, false); os << "\"}"; }
@@ -99,7 +110,7 @@ struct Dumper {
     else if (auto *F = dyn_cast<Function>(C)) { os << "{\"k\":\"func\",\"name\":\"" << esc(F->getName()) << "\"}"; }
     else if (auto *G = dyn_cast<GlobalVariable>(C)) {
       os << "{\"k\":\"global\",\"name\":\"" << esc(G->getName()) << "\"";
-      if (G->isConstant() && G->hasInitializer()) {
+      if ((G->isConstant() || (G->getName().startswith("_ZZ") && onlyRead(G))) && G->hasInitializer()) {
         uint64_t sz = DL.getTypeAllocSize(G->getValueType()).getFixedSize();
         if (sz <= 4096) {
           std::vector<uint8_t> buf(sz, 0);
